@@ -39,7 +39,13 @@ def search(ctx, N):
         for _ in range(n):
             d = [i * c for i, c in enumerate(d)][1:] or [Fraction(0)]
         exact = [sum(c * xv ** i for i, c in enumerate(d)) for xv in X]
-        got = fd_derivative(fx, x, n, m)
+        try:
+            got = fd_derivative(fx, x, n, m)
+        except Exception as ex:   # noqa
+            if ctx.violation('raises', 'fd_derivative(n=%d, m=%d) raises %r on a valid grid of length %d (minimum %d)' % (n, m, ex, length, 2 * mm + 2),
+                             {'x': x.tolist(), 'coefficients_low_to_high': [int(c) for c in coef], 'n': n, 'm': m}):
+                return
+            continue
         ctx.count(1)
         if len(got) != length:
             if ctx.violation('length', 'fd_derivative output length %d for input length %d' % (len(got), length), {'x': x.tolist(), 'n': n, 'm': m}):
